@@ -50,13 +50,20 @@ def configs(tier):
         for cols in (False, True):
             for nq in ((0, 1, 2) if quick else (0, 1, 2, 3)):
                 for nreq in (1, 2):
-                    out.append({'kind': 'features', 'rows': rows, 'cols': cols, 'nq': nq, 'nreq': nreq, 'NT': NT})
+                    for si in (range(4) if rows else [None]):
+                        for q0 in (range(NT) if nq >= 2 else [None]):
+                            out.append({'kind': 'features', 'rows': rows, 'cols': cols, 'nq': nq, 'nreq': nreq,
+                                        'NT': NT, 'stored_idx': si, 'q0': q0})
     for rows in (False, True):
         for cols in (False, True):
             for nq in ((1, 2) if quick else (1, 2, 3)):
-                out.append({'kind': 'tfeatures', 'rows': rows, 'cols': cols, 'nq': nq, 'NT': NT})
+                for si in (range(4) if rows else [None]):
+                    for q0 in (range(NT) if nq >= 2 else [None]):
+                        out.append({'kind': 'tfeatures', 'rows': rows, 'cols': cols, 'nq': nq, 'NT': NT,
+                                    'stored_idx': si, 'q0': q0})
     for nq in (1, 2):
-        out.append({'kind': 'pca', 'nq': nq, 'nsw': 3})
+        for q0 in range(3):
+            out.append({'kind': 'pca', 'nq': nq, 'nsw': 3, 'q0': q0})
     return out
 
 
@@ -144,11 +151,12 @@ def run_config(cfg, e):
             ncl = 2
             npcs = 2
             if cfg['rows']:
-                stored = e.choice('stored', [[0, 2], [1, 2], [0, 1, 2][:NT], [2]])
+                stored = [[0, 2], [1, 2], [0, 1, 2][:NT], [2]][cfg['stored_idx']]
             else:
                 stored = list(range(NT))
             nst = len(stored)
-            q = [e.choice('q%d' % i, list(range(NT))) for i in range(cfg['nq'])]
+            q = [cfg['q0'] if (i == 0 and cfg.get('q0') is not None) else e.choice('q%d' % i, list(range(NT)))
+                 for i in range(cfg['nq'])]
             if len(set(q)) != len(q):
                 return
             qa = snp.asarray(np.array(q, dtype=np.int64))
@@ -213,7 +221,7 @@ def run_config(cfg, e):
         nsw, nq = cfg['nsw'], cfg['nq']
         nch = 2
         stored = [0, 2]
-        q = [e.choice('q%d' % i, [0, 1, 2]) for i in range(nq)]
+        q = [cfg['q0'] if i == 0 else e.choice('q%d' % i, [0, 1, 2]) for i in range(nq)]
         if len(set(q)) != len(q):
             return
         exist = sorted(set(q) & set(stored))
@@ -259,7 +267,8 @@ def run_config(cfg, e):
             snp._Linalg.eigh = staticmethod(old_eigh)
         out = snp.asarray(out)
         e.prove(out.shape == (nq, nch, 3), 'shape %s' % (out.shape,))
-        e.prove(got_ids == [exist], 'waveforms requested for %s, expected %s' % (got_ids, exist))
+        e.prove(got_ids == [exist] or (not exist and got_ids == []),
+                'waveforms requested for %s, expected %s' % (got_ids, exist))
         obl = []
         for i, sid in enumerate(q):
             for k in range(nch):
@@ -388,12 +397,12 @@ def replay(case):
         mdl.sparse_features = None
         mdl.spike_waveforms = Bunch(spike_ids=np.array(stored, dtype=np.int64))
         mdl.get_waveforms = lambda ids, ch: W
-        if len(exist) == 0:
-            return None
         try:
             out = mdl.get_features(np.array(q, dtype=np.int64), np.array([0, 1], dtype=np.int64))
         except Exception as ex:
-            return 'get_features (PCA path) raised %r' % (ex,)
+            return 'get_features (PCA path) raised %r for spikes %s (stored %s)' % (ex, q, stored)
+        if len(exist) == 0:
+            return None if out.shape == (len(q), nch, 3) and not np.any(out) else 'non-stored spikes must stay zero'
         pcs = mod._compute_pcs(W, 3)
         for i, sid in enumerate(q):
             for k in range(nch):
